@@ -81,6 +81,22 @@ def null_last_forests():
     return fs
 
 
+def big_forests():
+    """containers (and unread remainders of containers) longer than the readers' internal chunk sizes (4 KiB buffer,
+    64 KiB read/skip chunks, 128 KiB), nested inside containers whose later children are then observed: what is skipped
+    in several steps must leave the same position as what is read"""
+    fs = []
+    for n in (4000, 4200, 65000, 65536, 65537, 70000, 131072, 140000):
+        s = ([], ("str", b"q" * n))
+        b = ([], ("blob", bytes(i % 251 for i in range(n))))
+        ints = ([], ("list", [([], ("int", i)) for i in range(n // 3)]))
+        for big in (s, b, ints):
+            inner = ([], ("list", [big, ([], ("int", 1))]))
+            fs.append([([], ("list", [inner, ([], ("int", 7)), ([], ("list", [([], ("int", 8))]))])), ([], ("int", 9))])
+            fs.append([([], ("struct", [(b"a", inner), (b"b", ([], ("sexp", [big, ([], ("sym", b"x"))]))), (b"c", ([], ("int", 3)))])), ([], ("str", b"end"))])
+    return fs
+
+
 def run(ctx):
     rng = ctx.rng
     forests = binlib.gen_forests(ctx, ctx.scale(500, 10000), {"depth": 4, "p_container": 0.45})
@@ -93,7 +109,7 @@ def run(ctx):
             lines.append("brd 0 %s %s" % (iongen.hx(d), " ".join(p)))
             exp.append(cursor.run_program(f, p))
     # systematic: every container left at every position
-    nl = null_last_forests()
+    nl = null_last_forests() + big_forests()
     sysf = nl + forests[:ctx.scale(150, 3000)]
     for f, d in zip(sysf, binlib.encode_docs(ctx, nl, True) + docs[:ctx.scale(150, 3000)]):
         for p in stepout_programs(f):
